@@ -316,4 +316,6 @@ def run(chk, ctx):
     r6(chk, ctx, sp)
     r7(chk, ctx, sp)
     r8(chk, ctx, sp)
+    from . import c01
+    c01.r1(chk, ctx, ctx.protocol(), ctx.mod('state_engine'))  # where the templates are evaluated: once per state / per Map item, on the documented input
     chk.assume("hashlib, base64, json, uuid behave as documented")
